@@ -43,7 +43,8 @@ import (
 
 func init() { Register("C09", Domain{Gen: c09Gen, Run: c09Run}) }
 
-const c09StepTimeout = 5 * time.Second
+// every wait ends on its event; the limits are only there for requests that really hang (scaled by HX_TIMEOUT_SCALE)
+var c09StepTimeout = HxScale(12 * time.Second)
 
 var c09Names = []string{"A", "B", "C", "D"}
 var c09Cfgs = []string{"p0", "pN", "m"}
@@ -239,7 +240,9 @@ func (st *c09State) spawn(t *c09Thread) {
 			r.val = resp.GetValue()
 			r.by = resp.GetMetadata().GetUpdatedBy()
 		}
-		st.done <- c09Done{th: t.name, resp: r}
+		if st.threads.Current() != "" { // not a leftover of an earlier case
+			st.done <- c09Done{th: t.name, resp: r}
+		}
 	}()
 }
 
@@ -296,13 +299,16 @@ func (st *c09State) settle() bool {
 			startWriter.gate <- struct{}{}
 		}
 		var grace <-chan time.Time
+		if !running && len(st.events)+len(st.done) > 0 {
+			running = true // reports are waiting to be read: not quiet yet
+		}
 		if !running {
 			// nothing is known to be running: give a goroutine that was scheduled late a moment to report
 			if quiet {
 				return true
 			}
 			quiet = true
-			grace = time.After(40 * time.Millisecond)
+			grace = time.After(HxScale(40 * time.Millisecond))
 		} else {
 			quiet = false
 		}
@@ -332,8 +338,17 @@ func (st *c09State) settle() bool {
 					t.wgid = ev.id
 				}
 			case "guard.wait":
-				if q, _ := st.snapshot(); len(q) > 0 && (q[0] == ev.id) {
-					continue // stale: this session is the head by now
+				// stale unless this session is still waiting: it may be the head by now, or already gone
+				if q, _ := st.snapshot(); true {
+					waiting := false
+					for i, id := range q {
+						if id == ev.id && i > 0 {
+							waiting = true
+						}
+					}
+					if !waiting {
+						continue
+					}
 				}
 				if t.wgid != 0 && t.at == "inc.written" {
 					t.at = "writer.wait"
@@ -414,7 +429,7 @@ func (st *c09State) endCase() {
 	}
 	st.mu.Unlock()
 	// let every parked goroutine run to completion
-	deadline := time.After(3 * time.Second)
+	deadline := time.After(HxScale(6 * time.Second))
 	pending := 0
 	for _, t := range ths {
 		if t.at != "done" && t.at != "" {
@@ -435,7 +450,7 @@ func (st *c09State) endCase() {
 				pending--
 			}
 		case <-st.events:
-		case <-time.After(20 * time.Millisecond):
+		case <-time.After(HxScale(20 * time.Millisecond)):
 		case <-deadline:
 			pending = 0
 		}
@@ -533,7 +548,7 @@ func (st *c09State) stress(writers, nkeys, per int) string {
 	go func() { wg.Wait(); close(fin) }()
 	select {
 	case <-fin:
-	case <-time.After(90 * time.Second):
+	case <-time.After(HxScale(180 * time.Second)):
 		st.dead = true
 		return "timeout"
 	}
@@ -744,7 +759,7 @@ func (st *c09State) mixed(writers, per int, seed int64) string {
 	go func() { wg.Wait(); close(fin) }()
 	select {
 	case <-fin:
-	case <-time.After(60 * time.Second):
+	case <-time.After(HxScale(120 * time.Second)):
 		st.dead = true
 		return "timeout"
 	}
@@ -801,9 +816,14 @@ func c09Run(in *bufio.Scanner, w *bufio.Writer) {
 			if st.setx {
 				c09s.hook(th)
 			}
-		case "inc.fetched":
+		case "del.acquired":
 			if st.setx {
 				c09s.hook(th)
+			}
+			return
+		case "inc.fetched":
+			if st.setx {
+				c09s.hookKind(th, "pinc")
 				return
 			}
 			if st.stopAt.Load().(string) != th {
@@ -818,6 +838,12 @@ func c09Run(in *bufio.Scanner, w *bufio.Writer) {
 			}
 			fallthrough
 		case "inc.acquired", "inc.read", "inc.written", "inc.saved":
+			if st.setx {
+				if nm == "inc.acquired" {
+					c09s.hookKind(th, "inchold")
+				}
+				return
+			}
 			t := st.get(th)
 			if t == nil {
 				return
@@ -838,6 +864,7 @@ func c09Run(in *bufio.Scanner, w *bufio.Writer) {
 		if f[0] == "case" {
 			c09s.endCase()
 			st.endCase()
+			st.threads.NextEpoch()
 			st.setx = false
 			st.dead = false
 			st.cfg = ""
@@ -869,7 +896,7 @@ func c09Run(in *bufio.Scanner, w *bufio.Writer) {
 				st.threads.Register("init")
 				if !st.setInt("z", 0) || !st.setInt("k", 5) {
 					// a loaded machine: once more before giving the case up
-					time.Sleep(300 * time.Millisecond)
+					time.Sleep(HxScale(300 * time.Millisecond))
 					if !st.setInt("z", 0) || !st.setInt("k", 5) {
 						st.dead = true
 					}
@@ -895,7 +922,7 @@ func c09Run(in *bufio.Scanner, w *bufio.Writer) {
 			continue
 		}
 		if st.dead {
-			fmt.Fprintln(w, "skip")
+			fmt.Fprintln(w, "err skip") // the case could not be set up (a request timed out)
 			continue
 		}
 		switch {
